@@ -134,13 +134,22 @@ def run_static(cell, rec, seed):
             Ss = [t.Sigma[0] for _, t, _ in obs]
             mu_ref, S_ref, lml_ref, Sy = posterior_mp(tp.mu[0], tp.Sigma[0], Ms, bs, Ss, ys)
             if gen.in_domain(Sy, S_ref, kmax=1e6):
+                sy_ok = True
+                break
+            # precise observations overriding a vague prior (variance ratios of 1e9 and more):
+            # the marginal covariance of the stacked observations is ill conditioned although
+            # prior, noise and posterior are not. Posterior mean and covariance are judged there
+            # (mpmath reference, posterior scale); the evidence, which lives on Sy, is not.
+            if gen.in_domain(S_ref, kmax=1e4) and N * Dy >= Dw and attempt % 2 == 0:
+                sy_ok = False
+                rec.count("precise_data_cells")
                 break
             rec.count("out_of_domain")
         else:
             continue
         rec.cell(["static", Dw, Dy, N, ok], N > 1)
         ns_mu = np.max(np.abs(mu_ref)) + np.max(np.abs(tp.mu)) + 1e-3
-        ns_S = np.max(np.abs(tp.Sigma))
+        ns_S = np.max(np.abs(tp.Sigma)) if sy_ok else np.max(np.abs(S_ref))
         # the log evidence is assembled from natural parameters: ln Z(L_post, nu_post) and the
         # log-constants of prior and likelihood factors, all of which carry large cancelling
         # quadratic terms when scales are extreme: absolute companion of those terms
@@ -178,7 +187,9 @@ def run_static(cell, rec, seed):
                       mech="route-a-posterior-mu")
             rec.close("sequential posterior covariance", p.Sigma, S_ref[None], ns=ns_S, detail=d,
                       mech="route-a-posterior-Sigma")
-            rec.close("sequential evidence", lp, lml_ref, ns=ns_l, detail=d, mech="route-a-evidence")
+            if sy_ok:
+                rec.close("sequential evidence", lp, lml_ref, ns=ns_l, detail=d,
+                          mech="route-a-evidence")
             history["orders"].append([int(i) for i in order])
         # ---- route (b): joint transformation + coordinate conditioning. The route inverts the
         # joint over (w, y_i) at every step: as in C07 it is judged while those joints have a
@@ -236,7 +247,8 @@ def run_static(cell, rec, seed):
                 if u is not None:
                     d = dict(info, route="factors",
                              expected_offset_from_set_y=N * 0.5 * (Dy - Dw) * math.log(2 * math.pi))
-                    li = lc.call(rec, "log_integral", lambda: u.log_integral(), info)
+                    li = lc.call(rec, "log_integral", lambda: u.log_integral(), info) if sy_ok \
+                        else None
                     if li is not None:
                         d["residual"] = float(np.asarray(li)[0] - lml_ref)
                         d["ns"] = ns_l
